@@ -191,6 +191,27 @@ fn case(t: &mut Tape, info: &mut CaseInfo) -> Result<(), String> {
     same("<Mode>Performance::new(&src) vs explicit", &r_mode, &r_explicit)?;
     info.comparisons += 3;
 
+    // score setters given *before* the mode switch must be carried over (the conversions copy the
+    // builder field by field); setters that mean different things in the two modes are left out
+    let mut carried = score.clone();
+    carried.n_katu = None;
+    carried.n_geki = None;
+    carried.large_tick_hits = None;
+    carried.small_tick_hits = None;
+    carried.slider_end_hits = None;
+    carried.state = None;
+    if src_mode == GameMode::Osu && !src_is_convert {
+        let before = match carried.apply(Performance::new(&map).difficulty(d.clone())).try_mode(target) {
+            Ok(p) => p.calculate(),
+            Err(_) => return Err("Performance::try_mode refused a possible conversion (score setters applied first)".into()),
+        };
+        let after = carried.apply(Performance::new(&explicit).difficulty(d.clone())).calculate();
+        same("score setters applied before try_mode vs on the explicitly converted map", &before, &after)?;
+        let before2 = carried.apply(Performance::new(&map).difficulty(d.clone())).mode_or_ignore(target).calculate();
+        same("score setters applied before mode_or_ignore vs on the explicitly converted map", &before2, &after)?;
+        info.comparisons += 2;
+    }
+
     // attribute-based calculators cannot change mode
     let attr_based = Performance::new(via_explicit.clone());
     let other = MODES[(mode_idx(target) as usize + 1) % 4];
